@@ -21,13 +21,17 @@ import (
 	"path/filepath"
 	"sort"
 	"sync"
+	"sync/atomic"
 	"time"
 
+	"github.com/cockroachdb/pebble"
 	"github.com/ethereum/go-ethereum/common/hexutil"
 	"github.com/ethereum/go-ethereum/p2p/enode"
 	"github.com/holiman/uint256"
 	"github.com/zen-eth/shisui/portalwire"
+	pingext "github.com/zen-eth/shisui/portalwire/ping_ext"
 	"github.com/zen-eth/shisui/storage"
+	spebble "github.com/zen-eth/shisui/storage/pebble"
 	"verifharness/lib"
 	"verifharness/pnode"
 	"verifharness/storeutil"
@@ -193,6 +197,93 @@ func callPaths(r *lib.Run) {
 	defer adv.Stop()
 	api := portalwire.NewPortalAPI(node.P)
 	self := node.ID()
+	// peers whose reported radius the monitor controls: gossip target selection
+	var gpeers []*pnode.Adversary
+	for i := 0; i < 6; i++ {
+		a, err := hub.StartAdversary(pnode.AdvOpts{Key: pnode.NewKey(rng), Addr: pnode.Addr4(10, 0, 6, byte(10+i), 9100), Versions: []uint8{0, 1}, RespTimeout: time.Second})
+		if err != nil {
+			r.FloorMiss("start peer: %v", err)
+			return
+		}
+		defer a.Stop()
+		gpeers = append(gpeers, a)
+	}
+	reportRadius := func(a *pnode.Adversary, rad *uint256.Int) bool {
+		rb, _ := rad.MarshalSSZ() // little-endian uint256, as the wire format says
+		pl := pingext.NewClientInfoAndCapabilitiesPayload(rb, []uint16{0, 2, 65535})
+		plb, err := pl.MarshalSSZ()
+		if err != nil {
+			return false
+		}
+		pb, _ := (&portalwire.Ping{EnrSeq: 1, PayloadType: pingext.ClientInfo, Payload: plb}).MarshalSSZ()
+		if _, err := a.Talk(node.Self(), string(portalwire.History), append([]byte{portalwire.PING}, pb...)); err != nil {
+			return false
+		}
+		deadline := time.Now().Add(2 * time.Second) // the ping is processed asynchronously: wait for the event
+		for time.Now().Before(deadline) {
+			if got, ok := node.P.VerifRadiusCacheGet(a.ID()); ok && string(got) == string(rb) {
+				return true
+			}
+			time.Sleep(200 * time.Microsecond)
+		}
+		return false
+	}
+	gossipCase := func(i int) {
+		crng := r.RNG("gossip", i)
+		key := make([]byte, 33)
+		crng.Read(key)
+		key[0] = 0x00
+		id := sha256.Sum256(key)
+		type pr struct {
+			in, boundary bool
+			rad          *uint256.Int
+		}
+		plan := map[enode.ID]pr{}
+		covered := 0
+		for _, a := range gpeers {
+			d := storeutil.BE(storeutil.Xor(a.ID(), id))
+			rads := radiusCases(crng, d)
+			rad := rads[crng.Intn(len(rads))]
+			if !reportRadius(a, rad) {
+				r.Inconclusive("gossip case %d: radius report not acknowledged", i)
+				return
+			}
+			in, b := refInRange(a.ID(), rad, id)
+			plan[a.ID()] = pr{in, b, rad}
+			if in {
+				covered++
+			}
+		}
+		sel, err := node.P.GossipAndReturnPeers(nil, [][]byte{key}, [][]byte{{1}})
+		r.Eval(1)
+		if err != nil {
+			r.Inconclusive("gossip case %d: %v", i, err)
+			return
+		}
+		picked := map[enode.ID]bool{}
+		for _, n := range sel {
+			picked[n.ID()] = true
+			p, known := plan[n.ID()]
+			if !known {
+				continue // the offerer of the OFFER path: radius never reported in a supported way
+			}
+			if !p.in && !p.boundary {
+				r.Violation("inrange-path:gossip-target-out-of-range", fmt.Sprintf("gossip picked peer %x.. whose reported radius %s does not cover the content (distance from the PEER %s)", n.ID().Bytes()[:4], p.rad.Hex(), storeutil.BE(storeutil.Xor(n.ID(), id)).Hex()),
+					map[string]any{"content_key": lib.Hex(key), "content_id": lib.Hex(id[:]), "peer": n.ID().String(), "radius": p.rad.Hex()})
+			}
+		}
+		if covered <= 4 { // with at most four covered peers all of them are taken
+			for pid, p := range plan {
+				if p.in && !picked[pid] {
+					r.Violation("inrange-path:gossip-covered-peer-skipped", fmt.Sprintf("gossip skipped peer %x.. although its reported radius %s covers the content and only %d peers are covered", pid[:4], p.rad.Hex(), covered),
+						map[string]any{"content_key": lib.Hex(key), "content_id": lib.Hex(id[:]), "peer": pid.String(), "radius": p.rad.Hex()})
+				}
+			}
+		}
+		r.Count("gossip_path_cases", 1)
+		r.Count("gossip_path_targets_checked", len(sel))
+		r.DistinctBytes([]byte("gossip"), key)
+	}
 	n := r.Pick(1500, 20000)
 	for i := 0; i < n; i++ {
 		crng := r.RNG("path", i)
@@ -243,6 +334,11 @@ func callPaths(r *lib.Run) {
 		}
 		r.Count("call_path_cases", 1)
 		r.DistinctBytes([]byte("path"), key, rad.Bytes())
+	}
+	st.set(storeutil.MaxRadius)
+	ng := r.Pick(120, 3000)
+	for i := 0; i < ng; i++ {
+		gossipCase(i)
 	}
 }
 
@@ -483,11 +579,105 @@ func traceJSON(t []step) []map[string]any {
 	return out
 }
 
+// directedConcurrent: puts racing a pruning put, produced deliberately through the store's verif yield
+// hook, in the regime where both byte orders coincide. At quiescence every retained item must lie
+// within the advertised radius: a put may not be admitted against a radius that a concurrent prune
+// has already shrunk by the time the item is stored.
+func directedConcurrent(r *lib.Run, idx int, base string) {
+	rng := r.RNG("directed", idx)
+	var node enode.ID // zero: with palindromic ids little- and big-endian readings coincide
+	dir := filepath.Join(base, fmt.Sprintf("d%d", idx))
+	db, err := storeutil.OpenDir(dir, "c06d")
+	if err != nil {
+		r.FloorMiss("open: %v", err)
+		return
+	}
+	st, err := storeutil.NewStore(db, node, 1, "c06d")
+	if err != nil {
+		r.FloorMiss("newstorage: %v", err)
+		return
+	}
+	defer func() { st.Close(); os.RemoveAll(dir) }()
+	// fill to just below capacity with items spread over the whole distance range
+	for storeutil.Held(mustScan(db)) < 960000 {
+		id := palindrome(rng)
+		if err := st.Put(nil, id[:], make([]byte, 19000)); err != nil {
+			r.FloorMiss("prefill: %v", err)
+			return
+		}
+	}
+	var arrivals, paused atomic.Int64
+	release := make(chan struct{})
+	var once sync.Once
+	hook := func(p string) {
+		if p != "put.afterAdd" || arrivals.Add(1) != 1 {
+			return
+		}
+		paused.Add(1)
+		select { // the first put (which will prune) waits until the others have had time to pass their admission check
+		case <-release:
+		case <-time.After(150 * time.Millisecond):
+		}
+	}
+	spebble.VerifYield.Store(&hook)
+	var wg sync.WaitGroup
+	for w := 0; w < 2; w++ {
+		wg.Add(1)
+		// w=1: one small item at (almost) the maximum distance: farther than anything a prune keeps, so a
+		// shrunk radius must refuse it; small enough not to cause a second prune that would remove it again
+		id := palindrome(rng)
+		id[0], id[31] = 0xff, 0xff
+		size := 9000
+		if w == 0 {
+			id[0], id[31] = 0x01, 0x01 // the pruning put itself is a near item
+			size = 45000
+		}
+		go func(w int, id [32]byte, size int) {
+			defer wg.Done()
+			if w > 0 {
+				for paused.Load() == 0 && arrivals.Load() == 0 {
+					time.Sleep(50 * time.Microsecond)
+				}
+			}
+			err := st.Put(nil, id[:], make([]byte, size))
+			r.Eval(1)
+			if err != nil && !errors.Is(err, storage.ErrInsufficientRadius) {
+				r.Violation("put-error", fmt.Sprintf("directed concurrent put: %v", err), nil)
+			}
+			if w > 0 {
+				once.Do(func() { close(release) })
+			}
+		}(w, id, size)
+	}
+	wg.Wait()
+	spebble.VerifYield.Store(nil)
+	rad := st.Radius()
+	for _, it := range mustScan(db) {
+		if storeutil.BE(it.Key).Gt(rad) {
+			r.Violation("radius-metric:retained-outside-radius:concurrent", fmt.Sprintf("after puts racing a pruning put, a retained item at distance %s lies outside the advertised radius %s (node id 0, palindromic ids)", storeutil.BE(it.Key).Hex(), rad.Hex()),
+				map[string]any{"run": idx, "radius": rad.Hex(), "item_distance": lib.Hex(it.Key[:])})
+			break
+		}
+	}
+	r.Count("directed_concurrent_runs", 1)
+	if paused.Load() > 0 {
+		r.Distinct(fmt.Sprintf("directed-%d", idx))
+	}
+	if !rad.Eq(storeutil.MaxRadius) {
+		r.Count("directed_concurrent_runs_with_prune", 1)
+	}
+}
+
+func mustScan(db *pebble.DB) []storeutil.Item {
+	it, _ := storeutil.Scan(db)
+	return it
+}
+
 func run(r *lib.Run) {
 	pnode.Quiet()
 	r.SetRule("(1) (node id, radius, content id) triples with radii 0,1,2^8+-1,2^9-1,2^9,2^k,max,d,d+-1,byte-reversed d and random, ids random / sharing a prefix with the node / differing in one byte at each of the 32 positions, compared with d<r (d==r don't-care); " +
-		"(2) the three call paths (OFFER verdict codes, store RPC, exported InRange) on a real node whose radius the monitor sets around the real distance; " +
-		"(3) put histories of 90..150 puts (1 MB capacity, 12..48 kB values, several prunes) checked after every step: regime A = node id 0 with palindromic ids (little- and big-endian readings coincide, strict oracle), regime B = general ids incl. single-byte, byte-reversed and just-around-the-radius distances. " +
+		"(2) the call paths on a real node: OFFER verdict codes, store RPC and exported InRange with a radius the monitor sets around the real distance, and gossip target selection with six real peers whose radius reports (real PINGs) the monitor sets around each peer's distance; " +
+		"(3) directed schedules: far puts racing a pruning put that is paused at the store's yield point; (4) put histories of 90..150 puts (1 MB capacity, 12..48 kB values, several prunes) checked after every step: regime A = node id 0 with palindromic ids (little- and big-endian readings coincide, strict oracle), regime B = general ids incl. single-byte, byte-reversed and just-around-the-radius distances. " +
 		"distinct_nontrivial = triples with |d-r|<=2 + call-path cases + histories with >= 1 prune")
 	r.Assume("distance = XOR of node id and content id read as a big-endian 256-bit number (property statement); equality d == r is don't-care for admission")
 	r.Assume("a regime-B history that violates the strict oracle is attributed to the recorded finding storage-radius-little-endian only when the executable defect model reproduces every accept/refuse outcome, every Radius() value and every retained set of that history")
@@ -508,6 +698,13 @@ func run(r *lib.Run) {
 		go func(i int) { defer wg.Done(); defer func() { <-sem }(); runHistory(r, i, base) }(i)
 	}
 	wg.Wait()
+	nd := r.Pick(12, 200)
+	for i := 0; i < nd; i++ { // the yield hook is process-global: one at a time
+		directedConcurrent(r, i, base)
+	}
+	if r.Counter("directed_concurrent_runs_with_prune") == 0 {
+		r.Warn("no directed concurrent run pruned")
+	}
 	if r.Counter("histories_with_prune_regime_A") == 0 {
 		r.FloorMiss("no regime-A history pruned")
 	}
